@@ -85,18 +85,205 @@ let pclass_name = function
   | PEmptyHistory -> "empty-history" | PTicksCorruption -> "ticks" | PIndex -> "index" | PMark -> "mark"
   | PNilFile -> "nil" | PExists -> "exists" | PIntegrity -> "integrity" | PUnmodelled -> "unmodelled" | POther -> "other"
 
+
+(* ---------- native ground truth for large histories ----------
+   The extracted oracle of Lifetimes.v (znth into lists, ancestor bit vectors as bool lists, one pass over all
+   lines per cell) is cubic in practice; histories of 10^3 .. 10^4 commits and matrices of hundreds of rows are
+   judged by the functions below instead: the same definitions (conflict_free, single_head, last_event,
+   truth_cell as "alive at the end of sample s and born in band b") on arrays, the matrix built with one
+   difference array per band.  Every small case of a run computes both and the driver stops if they differ
+   (self_check), so the native code is tied to the extracted definitions on thousands of histories per run. *)
+type nline = { nl_id : int; nl_born : int; nl_killer : int }
+type nhist = {
+  nn : int;
+  nparents : int list array;
+  nticks : int array;
+  nauthors : int array;
+  npaths : nline array array;       (* path index -> its line sequence *)
+  nlens_ok : bool;                  (* ticks / authors have one entry per commit *)
+}
+
+let nhist_of_sx (s : sx) : nhist * string list =
+  let parents = Array.of_list (List.map ints (args (field "parents" s))) in
+  let ticks = Array.of_list (List.map int_of_sx (args (field "ticks" s))) in
+  let authors = Array.of_list (List.map int_of_sx (args (field "authors" s))) in
+  let names = ref [] in
+  let paths = Array.of_list (List.map (fun p -> match p with
+      | L (A name :: ls) ->
+          names := name :: !names;
+          Array.of_list (List.map (fun l -> match ints l with
+              | [id; b; k] -> { nl_id = id; nl_born = b; nl_killer = k }
+              | _ -> failwith "line") ls)
+      | _ -> failwith "path") (args (field "paths" s))) in
+  let n = Array.length parents in
+  ({ nn = n; nparents = parents; nticks = ticks; nauthors = authors; npaths = paths;
+     nlens_ok = (Array.length ticks = n && Array.length authors = n) }, List.rev !names)
+
+(* ancestor-or-self sets as byte-packed bit rows *)
+let nancs (h : nhist) : Bytes.t array =
+  let w = (h.nn + 7) / 8 in
+  let rows = Array.make h.nn Bytes.empty in
+  for c = 0 to h.nn - 1 do
+    let r = Bytes.make w '\000' in
+    List.iter (fun p ->
+      if p >= 0 && p < c then begin
+        let rp = rows.(p) in
+        for i = 0 to w - 1 do
+          Bytes.unsafe_set r i (Char.unsafe_chr (Char.code (Bytes.unsafe_get r i) lor Char.code (Bytes.unsafe_get rp i)))
+        done end) h.nparents.(c);
+    Bytes.set r (c lsr 3) (Char.chr (Char.code (Bytes.get r (c lsr 3)) lor (1 lsl (c land 7))));
+    rows.(c) <- r
+  done; rows
+let nanc (a : Bytes.t array) c x =
+  c >= 0 && c < Array.length a && x >= 0 && x < Array.length a && Char.code (Bytes.get a.(c) (x lsr 3)) land (1 lsl (x land 7)) <> 0
+
+let rec distinct_ints = function [] -> true | x :: r -> not (List.mem x r) && distinct_ints r
+
+let nconflict_free (h : nhist) (a : Bytes.t array) : bool =
+  let n = h.nn in
+  let ok = ref (n >= 1 && h.nlens_ok) in
+  if !ok then begin
+    if h.nticks.(0) <> 0 then ok := false;
+    for c = 0 to n - 1 do
+      if h.nticks.(c) < 0 || h.nauthors.(c) < 0 || not (distinct_ints h.nparents.(c)) then ok := false;
+      List.iter (fun p -> if not (p >= 0 && p < c && h.nticks.(p) <= h.nticks.(c)) then ok := false) h.nparents.(c)
+    done;
+    (* ticks do not decrease from an ancestor to a descendant *)
+    if !ok then
+      for c = 0 to n - 1 do
+        for x = 0 to c do if nanc a c x && h.nticks.(x) > h.nticks.(c) then ok := false done
+      done;
+    let seen = Hashtbl.create 1024 in
+    Array.iter (Array.iter (fun l ->
+      if Hashtbl.mem seen l.nl_id then ok := false else Hashtbl.add seen l.nl_id ();
+      let b = l.nl_born and k = l.nl_killer in
+      if not (b >= 0 && b < n) then ok := false
+      else if k <> -1 then
+        if not (k >= 0 && k < n && nanc a k b && k <> b && List.length h.nparents.(k) <= 1 && h.nticks.(b) <= h.nticks.(k)) then ok := false)) h.npaths
+  end; !ok
+
+let nsingle_head (h : nhist) (a : Bytes.t array) : bool =
+  let ok = ref (h.nn >= 1) in
+  for c = 0 to h.nn - 1 do if not (nanc a (h.nn - 1) c) then ok := false done; !ok
+let nhas_line (h : nhist) = Array.exists (fun p -> Array.length p > 0) h.npaths
+let ntick h c = if c >= 0 && c < h.nn then h.nticks.(c) else 0
+let nlast_event (h : nhist) : int =
+  let m = ref 0 in
+  Array.iter (Array.iter (fun l ->
+    m := max !m (ntick h l.nl_born); if l.nl_killer >= 0 then m := max !m (ntick h l.nl_killer))) h.npaths; !m
+
+(* the ground-truth matrix of the lines selected by keep: a line born at tick tb and killed at tick td is alive
+   at the end of sample s iff tb <= (s+1)*S-1 < td, i.e. tb/S <= s < td/S; it sits in band tb/G *)
+let ntruth (h : nhist) g s (keep : int -> nline -> bool) : int list list =
+  let last = nlast_event h in
+  let rows = last / s + 1 and bands = last / g + 1 in
+  let d = Array.make_matrix bands (rows + 1) 0 in
+  Array.iteri (fun pi p -> Array.iter (fun l ->
+    if keep pi l then begin
+      let tb = ntick h l.nl_born in
+      let b = tb / g in
+      let from = tb / s in
+      let upto = if l.nl_killer >= 0 then min rows (ntick h l.nl_killer / s) else rows in
+      if from < upto then begin
+        d.(b).(from) <- d.(b).(from) + 1;
+        d.(b).(upto) <- d.(b).(upto) - 1
+      end
+    end) p) h.npaths;
+  for b = 0 to bands - 1 do for r = 1 to rows do d.(b).(r) <- d.(b).(r) + d.(b).(r - 1) done done;
+  List.init rows (fun r -> List.init bands (fun b -> d.(b).(r)))
+
+let nalive_at_head (h : nhist) (a : Bytes.t array) (l : nline) =
+  nanc a (h.nn - 1) l.nl_born && not (l.nl_killer >= 0 && nanc a (h.nn - 1) l.nl_killer)
+let nlines_at_head h a =
+  let k = ref 0 in Array.iter (Array.iter (fun l -> if nalive_at_head h a l then incr k)) h.npaths; !k
+(* developer -> lines of path pi alive at HEAD, developers without a line omitted, sorted *)
+let nownership h a pi : (int * int) list =
+  let t = Hashtbl.create 8 in
+  Array.iter (fun l -> if nalive_at_head h a l then begin
+    let d = h.nauthors.(l.nl_born) in
+    Hashtbl.replace t d (1 + try Hashtbl.find t d with Not_found -> 0) end) h.npaths.(pi);
+  List.sort compare (Hashtbl.fold (fun d k acc -> (d, k) :: acc) t [])
+let npaths_with_lines h = List.filter (fun pi -> Array.length h.npaths.(pi) > 0) (List.init (Array.length h.npaths) (fun i -> i))
+
+(* what the judgement of one history case needs, from the extracted oracle or from the native one *)
+type truth = {
+  t_cfree : bool; t_hasline : bool; t_single : bool; t_n : int;
+  t_tick : int -> int;
+  t_project : unit -> int list list;
+  t_file : int -> int list list;
+  t_dev : int -> int list list;
+  t_lines_at_head : unit -> int;
+  t_ownership : int -> (int * int) list;
+  t_paths_with_lines : int list;
+  t_authors : int list;
+}
+let native_truth (nh : nhist) g s : truth =
+  let a = nancs nh in
+  { t_cfree = nconflict_free nh a; t_hasline = nhas_line nh; t_single = nsingle_head nh a; t_n = nh.nn;
+    t_tick = ntick nh;
+    t_project = (fun () -> ntruth nh g s (fun _ _ -> true));
+    t_file = (fun pi -> ntruth nh g s (fun p _ -> p = pi));
+    t_dev = (fun d -> ntruth nh g s (fun _ l -> nh.nauthors.(l.nl_born) = d));
+    t_lines_at_head = (fun () -> nlines_at_head nh a);
+    t_ownership = (fun pi -> nownership nh a pi);
+    t_paths_with_lines = npaths_with_lines nh;
+    t_authors = Array.to_list nh.nauthors }
+
 (* ---------- one conflict-free-history case ---------- *)
+let extracted_truth (h : hist) g s : truth =
+  let gz = zi g and sz = zi s in
+  { t_cfree = conflict_free h; t_hasline = has_line h; t_single = single_head h; t_n = List.length h.h_parents;
+    t_tick = (fun c -> iz (tick_of h (zi c)));
+    t_project = (fun () -> zmatrix (truth_project h gz sz));
+    t_file = (fun pi -> zmatrix (truth_file h gz sz (zi pi)));
+    t_dev = (fun d -> zmatrix (truth_dev h gz sz (zi d)));
+    t_lines_at_head = (fun () -> iz (lines_at_head h));
+    t_ownership = (fun pi -> List.sort compare (List.map (fun (d, k) -> (iz d, iz k))
+                                (truth_ownership h (zi pi) (List.sort_uniq compare h.h_authors))));
+    t_paths_with_lines = List.map iz (paths_with_lines h);
+    t_authors = List.map iz h.h_authors }
+
+(* both oracles on a small case: the native one must agree with the extracted one on everything it is used for *)
+let self_check id (e : truth) (n : truth) ~applied ~files ~people ~devs =
+  let bad what = failwith (Printf.sprintf "case %d: self-check of the native ground truth failed (%s)" id what) in
+  if e.t_cfree <> n.t_cfree then bad "conflict_free";
+  if e.t_hasline <> n.t_hasline then bad "has_line";
+  if e.t_cfree then begin
+    if e.t_single <> n.t_single then bad "single_head";
+    if e.t_paths_with_lines <> n.t_paths_with_lines then bad "paths_with_lines";
+    if applied then begin
+      if e.t_project () <> n.t_project () then bad "truth_project";
+      if e.t_single && e.t_lines_at_head () <> n.t_lines_at_head () then bad "lines_at_head";
+      if files then List.iter (fun pi ->
+        if e.t_file pi <> n.t_file pi then bad "truth_file";
+        if e.t_single && e.t_ownership pi <> n.t_ownership pi then bad "truth_ownership") e.t_paths_with_lines;
+      if people then List.iter (fun d -> if d >= 0 && e.t_dev d <> n.t_dev d then bad "truth_dev") devs
+    end
+  end;
+  count "native_oracle_self_checked"
+
 let hist_case id (c : sx) =
   let g = int_of_sx (List.hd (args (field "g" c))) and s = int_of_sx (List.hd (args (field "s" c))) in
   let files = bool_of_sx (List.hd (args (field "files" c))) in
   let people = bool_of_sx (List.hd (args (field "people" c))) in
-  let (h, names) = parse_hist (field "rhist" c) in
+  let flag name def = match field_opt name c with Some f -> bool_of_sx (List.hd (args f)) | None -> def in
+  let scale = flag "scale" false in
+  let model = flag "model" true in
+  let (nh, names) = nhist_of_sx (field "rhist" c) in
+  let ntr = native_truth nh g s in
+  (* the extracted history is needed by the extracted oracle (small cases) and by the analysis model *)
+  let hopt = if scale && not model then None else Some (fst (parse_hist (field "rhist" c))) in
+  let tr = if scale then ntr else (match hopt with Some h -> extracted_truth h g s | None -> ntr) in
+  if scale then count "judged_by_native_ground_truth";
   let obs = List.hd (args (field "obs" c)) in
-  let cfree = conflict_free h in
-  let hasline = has_line h in
-  let single = single_head h in
-  let n = List.length h.h_parents in
-  if not cfree then count "hist_outside_domain" else begin
+  let cfree = tr.t_cfree in
+  let hasline = tr.t_hasline in
+  let single = tr.t_single in
+  let n = tr.t_n in
+  if not cfree then begin
+    count "hist_outside_domain";
+    if not scale then self_check id tr ntr ~applied:false ~files ~people ~devs:[]
+  end else begin
     count "hist_in_domain";
     if single then count "single_head" else count "multi_head";
     match tag obs with
@@ -109,16 +296,18 @@ let hist_case id (c : sx) =
         let plan = List.map parse_action (args (field "plan" obs)) in
         let planned = List.sort_uniq compare (List.filter_map (function ACommit (cm, _) -> Some (iz cm) | _ -> None) plan) in
         let first_tick0 = (match List.filter_map (function ACommit (cm, _) -> Some cm | _ -> None) plan with
-                           | cm :: _ -> iz (tick_of h cm) = 0 | [] -> false) in
-        if List.length planned <> n then count "commits_dropped_by_planner"
-        else if not first_tick0 then count "first_planned_commit_not_tick0"
-        else if not hasline then count "no_line"
+                           | cm :: _ -> tr.t_tick (iz cm) = 0 | [] -> false) in
+        let dict = ints (L (args (field "dict" obs))) in
+        if List.length planned <> n then (count "commits_dropped_by_planner"; if not scale then self_check id tr ntr ~applied:false ~files ~people ~devs:[])
+        else if not first_tick0 then (count "first_planned_commit_not_tick0"; if not scale then self_check id tr ntr ~applied:false ~files ~people ~devs:[])
+        else if not hasline then (count "no_line"; if not scale then self_check id tr ntr ~applied:false ~files ~people ~devs:[])
         else begin
           count "oracle_applied";
-          let gz = zi g and sz = zi s in
+          if not scale then self_check id tr ntr ~applied:true ~files ~people ~devs:dict;
           let global = matrix_of_sx (args (field "global" obs)) in
           (* (a) every cell of the project matrix *)
-          let want = zmatrix (truth_project h gz sz) in
+          let want = tr.t_project () in
+          if List.length want >= 100 then count "matrices_of_100_rows_or_more";
           (match diff_matrix "project matrix" global want with
            | Some m -> propfail id m
            | None -> ());
@@ -128,21 +317,20 @@ let hist_case id (c : sx) =
           if single && global <> [] then begin
             let lastrow = List.nth global (List.length global - 1) in
             let sum = List.fold_left (+) 0 lastrow in
-            if sum <> iz (lines_at_head h) then
-              propfail id (Printf.sprintf "last row sums to %d, HEAD has %d lines" sum (iz (lines_at_head h)))
+            if sum <> tr.t_lines_at_head () then
+              propfail id (Printf.sprintf "last row sums to %d, HEAD has %d lines" sum (tr.t_lines_at_head ()))
           end;
-          let dict = ints (L (args (field "dict" obs))) in
           (* (d) per-file matrices and ownership *)
           if files then begin
             count "files_checked";
             let fh = List.map (fun e -> match e with L (A p :: rows) -> (p, matrix_of_sx rows) | _ -> failwith "fhist") (args (field "fhist" obs)) in
-            let wantpaths = List.map (fun p -> List.nth names (iz p)) (paths_with_lines h) in
+            let wantpaths = List.map (fun p -> List.nth names p) tr.t_paths_with_lines in
             List.iter (fun (p, _) -> if not (List.mem p wantpaths) then propfail id ("file matrix for a path without lines: " ^ p)) fh;
             List.iter (fun p ->
               match List.assoc_opt p fh with
               | None -> propfail id ("no file matrix for path " ^ p)
               | Some m ->
-                  let w = zmatrix (truth_file h gz sz (zi (index_of p names))) in
+                  let w = tr.t_file (index_of p names) in
                   (match diff_matrix ("file matrix " ^ p) m w with Some t -> propfail id t | None -> ());
                   if List.exists (List.exists (fun v -> v < 0)) m then propfail id ("negative cell in the file matrix " ^ p)) wantpaths;
             if single then begin
@@ -150,15 +338,13 @@ let hist_case id (c : sx) =
                   | L (A p :: cells) -> (p, List.sort compare (List.map (fun cl -> match ints cl with [d; k] -> (d, k) | _ -> failwith "owner") cells))
                   | _ -> failwith "owner") (args (field "owner" obs)) in
               List.iter (fun p ->
-                let pi = zi (index_of p names) in
+                let truth_ow = tr.t_ownership (index_of p names) in
                 let want =
                   if people then
                     (* developer d of the history has people index i where dict[i] = d *)
-                    List.sort compare (List.filter_map (fun (d, k) ->
-                      let i = index_of (iz d) dict in Some (i, iz k))
-                      (truth_ownership h pi (List.sort_uniq compare h.h_authors)))
+                    List.sort compare (List.map (fun (d, k) -> (index_of d dict, k)) truth_ow)
                   else begin
-                    let tot = List.fold_left (fun a (_, k) -> a + iz k) 0 (truth_ownership h pi (List.sort_uniq compare h.h_authors)) in
+                    let tot = List.fold_left (fun a (_, k) -> a + k) 0 truth_ow in
                     if tot > 0 then [(-1, tot)] else []
                   end in
                 match List.assoc_opt p ow with
@@ -178,11 +364,16 @@ let hist_case id (c : sx) =
               match List.assoc_opt i ph with
               | None -> propfail id (Printf.sprintf "no matrix for developer index %d" i)
               | Some m ->
-                  let w = zmatrix (truth_dev h gz sz (zi d)) in
+                  let w = tr.t_dev d in
                   (match diff_matrix (Printf.sprintf "developer matrix %d (dev%d)" i d) m w with Some t -> propfail id t | None -> ());
                   if List.exists (List.exists (fun v -> v < 0)) m then propfail id (Printf.sprintf "negative cell in developer matrix %d" i)) dict
           end;
           (* ---------- fine correspondence with the abstract analysis ---------- *)
+          (match hopt with
+          | None -> count "model_not_stepped_large_case"
+          | Some _ when not model -> count "model_not_stepped_large_case"
+          | Some h ->
+          let gz = zi g and sz = zi s in
           if not (plan_okb h plan) then mismatch id "the run plan is rejected by plan_okb (a commit is not replayed on exactly its ancestry)"
           else begin
             count "plan_ok";
@@ -241,10 +432,26 @@ let hist_case id (c : sx) =
                      let want = List.sort compare (List.map (fun (p, f) -> (List.nth names (iz p), List.map iz f.f_vals)) lb.lb_state.b_files) in
                      if got <> want then mismatch id "final files of the root branch differ from the model"
                  | _ -> ())
-          end
+          end)
         end
     | t -> failwith ("obs " ^ t)
   end
+
+(* ---------- long linear histories, written as deltas ----------
+   (dlinear (step tick when (set name bytes)... (del name)...)...): per step the files that change.  The number of
+   text lines of a blob is the extracted count_lines (once per changed blob); the row-sum law of linear_rows_ok is
+   evaluated on arrays (native_rows_ok), which every small linear case checks against the extracted function. *)
+let native_rows_ok (ticks : int array) (totals : int array) (s : int) (m : int list list) : bool =
+  let n = Array.length ticks in
+  (* lines_at e: the total after the last step of the leading run of steps with tick <= e (0 when there is none) *)
+  let lines_at e = let cur = ref 0 in (try for i = 0 to n - 1 do if ticks.(i) <= e then cur := totals.(i) else raise Exit done with Exit -> ()); !cur in
+  let r = List.length m in
+  let ok = ref true in
+  List.iteri (fun sr row -> if List.fold_left (+) 0 row <> lines_at ((sr + 1) * s - 1) then ok := false) m;
+  let last = Array.fold_left max 0 ticks in
+  for x = 0 to last / s do
+    if not (x < r || lines_at ((x + 1) * s - 1) = lines_at (r * s - 1)) then ok := false
+  done; !ok
 
 (* ---------- one linear arbitrary-edit case ---------- *)
 let linear_case id (c : sx) =
@@ -264,13 +471,60 @@ let linear_case id (c : sx) =
       let global = matrix_of_sx (args (field "global" obs)) in
       let gm = List.map (List.map zi) global in
       if not (nonneg_matrix gm) then propfail id "negative cell on a linear history";
-      if not (linear_rows_ok steps (zi s) gm) then
+      let ok = linear_rows_ok steps (zi s) gm in
+      (* self-check of the array form used for the long linear histories *)
+      let nticks = Array.of_list (List.map (fun (t, _) -> iz t) steps) in
+      let ntotals = Array.of_list (List.map (fun (_, fs) -> iz (step_lines fs)) steps) in
+      if native_rows_ok nticks ntotals s global <> ok then
+        failwith (Printf.sprintf "case %d: self-check of the native row-sum law failed" id);
+      if not ok then
         propfail id ("row sums differ from the number of text lines alive at the sample: " ^ show_matrix global);
+      count "linear_checked"
+  | t -> failwith ("obs " ^ t)
+
+let dlinear_case id (c : sx) =
+  let s = int_of_sx (List.hd (args (field "s" c))) in
+  let steps = args (field "dlinear" c) in
+  let n = List.length steps in
+  let ticks = Array.make n 0 and totals = Array.make n 0 in
+  let cur : (string, int) Hashtbl.t = Hashtbl.create 16 in
+  let flips = ref 0 in
+  List.iteri (fun i st -> match st with
+    | L (_ :: t :: _ :: changes) ->
+        ticks.(i) <- int_of_sx t;
+        List.iter (fun ch -> match ch with
+          | L [A "set"; A name; bytes] ->
+              let data = List.map zi (ints bytes) in
+              let k = iz (count_lines data) in
+              if (match Hashtbl.find_opt cur name with Some old -> old > 0 && k = 0 && data <> [] | None -> false) then incr flips;
+              Hashtbl.replace cur name k
+          | L [A "del"; A name] -> Hashtbl.remove cur name
+          | _ -> failwith "dlinear change") changes;
+        totals.(i) <- Hashtbl.fold (fun _ k acc -> acc + k) cur 0
+    | _ -> failwith "dlinear step") steps;
+  let obs = List.hd (args (field "obs" c)) in
+  count "linear"; count "linear_delta_form";
+  if !flips > 0 then count "linear_with_text_to_binary_flip";
+  if n >= 1000 then count "linear_1000_steps_or_more";
+  let has_text = Array.exists (fun k -> k > 0) totals in
+  match tag obs with
+  | "panic" | "error" ->
+      let cls = atom (List.hd (args obs)) in
+      if (not has_text) && cls = "empty-history" then
+        propfail id "pipeline panics 'empty history': no text line in any analysed commit"
+      else propfail id (Printf.sprintf "pipeline %s (%s) on a linear history" (tag obs) cls)
+  | "ok" ->
+      let global = matrix_of_sx (args (field "global" obs)) in
+      if List.exists (List.exists (fun v -> v < 0)) global then propfail id "negative cell on a linear history";
+      if List.length global >= 100 then count "matrices_of_100_rows_or_more";
+      if not (native_rows_ok ticks totals s global) then
+        propfail id (Printf.sprintf "row sums differ from the number of text lines alive at the sample (%d rows)" (List.length global));
       count "linear_checked"
   | t -> failwith ("obs " ^ t)
 
 let () =
   iter_cases (fun id c ->
-    match field_opt "rhist" c with
-    | Some _ -> hist_case id c
-    | None -> linear_case id c)
+    match field_opt "rhist" c, field_opt "dlinear" c with
+    | Some _, _ -> hist_case id c
+    | None, Some _ -> dlinear_case id c
+    | None, None -> linear_case id c)
